@@ -618,12 +618,185 @@ theorem registerService_inv (s : State) (svc : Service) (now j : Nat) (h : Inv s
 
 /-! ### the other commands, re-runs, probing, queries -/
 
+theorem removeWaiting_mem {r : Registry} {n k : BList} {p : Probe} (h : (k, p) ∈ (r.removeWaiting n).probing) :
+    ∃ q, (k, q) ∈ r.probing ∧ p.records = q.records ∧ p.start = q.start ∧ p.next = q.next ∧
+      p.waiting = q.waiting.filter (· != n) ∧ ¬ (n ∈ q.waiting ∧ p.waiting = []) := by
+  simp only [Registry.removeWaiting, List.mem_filterMap] at h
+  obtain ⟨e, he, hs⟩ := h
+  split at hs
+  · cases hs
+  · rename_i hc
+    cases hs
+    refine ⟨e.2, he, rfl, rfl, rfl, rfl, ?_⟩
+    intro ⟨h1, h2⟩
+    apply hc
+    simp only [Bool.and_eq_true, List.contains_eq_mem, decide_eq_true_eq, List.isEmpty_iff]
+    exact ⟨h1, h2⟩
+
+theorem removeWaiting_noRen {r : Registry} (h : NoRen r) (n : BList) : NoRen (r.removeWaiting n) :=
+  ⟨h.1, fun k p hm a ha => by
+    obtain ⟨q, hq, e, _⟩ := removeWaiting_mem hm
+    exact h.2 k q hq a (e ▸ ha)⟩
+
+/-- what `purgeWaiting` leaves alone -/
+structure PurgeFrame (s s' : State) : Prop where
+  le : StLe s s'
+  services : s'.services = s.services
+  reruns : s'.reruns = s.reruns
+  timers : s'.timers = s.timers
+  monitors : s'.monitors = s.monitors
+  stopped : s'.stopped = s.stopped
+  nameLenMax : s'.nameLenMax = s.nameLenMax
+  ipInterval : s'.ipInterval = s.ipInterval
+  nextIpCheck : s'.nextIpCheck = s.nextIpCheck
+
+theorem purgeWaiting_frame (s : State) (n : BList) (hnr : ∀ idx, NoRen (s.registry idx)) :
+    PurgeFrame s (purgeWaiting s n) ∧ ∀ idx, NoRen ((purgeWaiting s n).registry idx) := by
+  unfold purgeWaiting
+  refine foldl_inv (fun (st : State) => PurgeFrame s st ∧ ∀ idx, NoRen (st.registry idx)) _ s.intfs s
+    ⟨⟨StLe.refl s, rfl, rfl, rfl, rfl, rfl, rfl, rfl, rfl⟩, hnr⟩ ?_
+  intro st i _ ⟨hf, hn⟩
+  split
+  · rename_i r hr
+    have hreg : st.registry i.index = r := registry_of_lookup hr
+    refine ⟨⟨hf.le.trans (StLe.setRegistry (hreg ▸ RegLe.of_eq rfl rfl)), hf.services, hf.reruns, hf.timers, hf.monitors,
+      hf.stopped, hf.nameLenMax, hf.ipInterval, hf.nextIpCheck⟩, ?_⟩
+    exact noRen_setRegistry hn i.index (removeWaiting_noRen (hreg ▸ hn i.index) n)
+  · exact ⟨hf, hn⟩
+
+/-- `p` is `q` with, possibly, the service `n` taken out of the waiting ones (and not left without
+    a waiting service by that) -/
+def Purged (n : BList) (q p : Probe) : Prop :=
+  p.records = q.records ∧ p.start = q.start ∧ p.next = q.next ∧
+  (p.waiting = q.waiting ∨ p.waiting = q.waiting.filter (· != n)) ∧ (n ∈ q.waiting → p.waiting ≠ [])
+
+theorem Purged.refl (n : BList) (q : Probe) : Purged n q q :=
+  ⟨rfl, rfl, rfl, Or.inl rfl, fun h e => by rw [e] at h; cases h⟩
+
+theorem not_mem_filter_ne (n : BList) (l : List BList) : n ∉ l.filter (· != n) := by
+  simp [List.mem_filter]
+
+theorem filter_ne_of_not_mem {n : BList} {l : List BList} (h : n ∉ l) : l.filter (· != n) = l := by
+  rw [List.filter_eq_self]
+  intro x hx
+  have : x ≠ n := fun e => h (e ▸ hx)
+  simpa using this
+
+theorem Purged.trans {n : BList} {a b c : Probe} (h1 : Purged n a b) (h2 : Purged n b c) : Purged n a c := by
+  obtain ⟨r1, s1, n1, w1, e1⟩ := h1
+  obtain ⟨r2, s2, n2, w2, e2⟩ := h2
+  refine ⟨r2.trans r1, s2.trans s1, n2.trans n1, ?_, ?_⟩
+  · rcases w1 with w1 | w1 <;> rcases w2 with w2 | w2
+    · exact Or.inl (w2.trans w1)
+    · exact Or.inr (by rw [w2, w1])
+    · exact Or.inr (w2.trans w1)
+    · right
+      rw [w2, w1, filter_ne_of_not_mem (not_mem_filter_ne n a.waiting)]
+  · intro hn
+    rcases w1 with w1 | w1
+    · exact e2 (w1 ▸ hn)
+    · have hb : n ∉ b.waiting := by rw [w1]; exact not_mem_filter_ne n _
+      have hbne := e1 hn
+      rcases w2 with w2 | w2
+      · rw [w2]; exact hbne
+      · rw [w2, filter_ne_of_not_mem hb]; exact hbne
+
+/-- what `purgeWaiting` does to the probes: each probe that is left is an earlier one with the
+    service taken out; and on every interface of the daemon no probe has it among the waiting -/
+theorem purge_fold (n : BList) : ∀ (l : List MyIntf) (st : State),
+    (∀ idx k p, (k, p) ∈ ((l.foldl (fun st i =>
+        match alookup i.index st.registries with
+        | some r => st.setRegistry i.index (r.removeWaiting n)
+        | none => st) st).registry idx).probing → ∃ q, (k, q) ∈ (st.registry idx).probing ∧ Purged n q p) ∧
+    (∀ i ∈ l, ∀ k p, (k, p) ∈ ((l.foldl (fun st i =>
+        match alookup i.index st.registries with
+        | some r => st.setRegistry i.index (r.removeWaiting n)
+        | none => st) st).registry i.index).probing → n ∉ p.waiting) := by
+  intro l
+  induction l with
+  | nil =>
+    intro st
+    exact ⟨fun idx k p h => ⟨p, h, Purged.refl n p⟩, fun i hi => by simp at hi⟩
+  | cons a rest ih =>
+    intro st
+    simp only [List.foldl_cons]
+    -- the step for `a`
+    have hstep : (∀ idx k p, (k, p) ∈ (((match alookup a.index st.registries with
+          | some r => st.setRegistry a.index (r.removeWaiting n)
+          | none => st) : State).registry idx).probing → ∃ q, (k, q) ∈ (st.registry idx).probing ∧ Purged n q p) ∧
+        (∀ k p, (k, p) ∈ (((match alookup a.index st.registries with
+          | some r => st.setRegistry a.index (r.removeWaiting n)
+          | none => st) : State).registry a.index).probing → n ∉ p.waiting) := by
+      split
+      · rename_i r hr
+        have hreg : st.registry a.index = r := registry_of_lookup hr
+        constructor
+        · intro idx k p h
+          by_cases e : idx = a.index
+          · subst e
+            rw [registry_setRegistry_self] at h
+            obtain ⟨q, hq, e1, e2, e3, e4, e5⟩ := removeWaiting_mem h
+            exact ⟨q, hreg ▸ hq, e1, e2, e3, Or.inr e4, fun hn hp => e5 ⟨hn, hp⟩⟩
+          · rw [registry_setRegistry_ne _ _ _ _ e] at h
+            exact ⟨p, h, Purged.refl n p⟩
+        · intro k p h
+          rw [registry_setRegistry_self] at h
+          obtain ⟨q, _, _, _, _, e4, _⟩ := removeWaiting_mem h
+          rw [e4]
+          exact not_mem_filter_ne n _
+      · rename_i hr
+        refine ⟨fun idx k p h => ⟨p, h, Purged.refl n p⟩, ?_⟩
+        intro k p h
+        have : st.registry a.index = {} := by simp [State.registry, hr]
+        rw [this] at h
+        simp at h
+    obtain ⟨ih1, ih2⟩ := ih (match alookup a.index st.registries with
+      | some r => st.setRegistry a.index (r.removeWaiting n)
+      | none => st)
+    constructor
+    · intro idx k p h
+      obtain ⟨q, hq, hqp⟩ := ih1 idx k p h
+      obtain ⟨q0, hq0, hq0q⟩ := hstep.1 idx k q hq
+      exact ⟨q0, hq0, hq0q.trans hqp⟩
+    · intro i hi k p h
+      rcases List.mem_cons.mp hi with rfl | hi
+      · obtain ⟨q, hq, hqp⟩ := ih1 _ k p h
+        have hnq := hstep.2 k q hq
+        rcases hqp.2.2.2.1 with w | w
+        · rw [w]; exact hnq
+        · rw [w]; exact not_mem_filter_ne n _
+      · exact ih2 i hi k p h
+
+/-- UNREGISTER LEAVES THE PROBES (repair of D30): after `purgeWaiting` every probe on an
+    interface of the daemon is an earlier probe - same records, same times - from whose waiting
+    services the unregistered one was taken; none was left without a waiting service by that
+    (such a probe is dropped: no probe query for it any more) -/
+theorem purgeWaiting_probes (s : State) (n : BList) (i : MyIntf) (hi : i ∈ s.intfs) :
+    ∀ k p, (k, p) ∈ ((purgeWaiting s n).registry i.index).probing →
+      n ∉ p.waiting ∧ ∃ q, (k, q) ∈ (s.registry i.index).probing ∧ p.records = q.records ∧ p.start = q.start ∧
+        p.next = q.next ∧ p.waiting = q.waiting.filter (· != n) ∧ (n ∈ q.waiting → p.waiting ≠ []) := by
+  intro k p h
+  obtain ⟨h1, h2⟩ := purge_fold n s.intfs s
+  have hn : n ∉ p.waiting := h2 i hi k p h
+  obtain ⟨q, hq, e1, e2, e3, e4, e5⟩ := h1 i.index k p h
+  refine ⟨hn, q, hq, e1, e2, e3, ?_, e5⟩
+  rcases e4 with w | w
+  · rw [← w, filter_ne_of_not_mem hn]
+  · exact w
+
 theorem execUnregister_inv (s : State) (now : Nat) (name : BList) (ch : Nat) (h : Inv s) :
     Inv (execUnregister s now name ch).1 ∧ (execUnregister s now name ch).1.intfs = s.intfs := by
   unfold execUnregister
   split
   · exact ⟨h, rfl⟩
-  · refine ⟨Inv.step h (StLe.of_eq rfl rfl) h.noRen ?_, rfl⟩
+  · rename_i svc _
+    obtain ⟨hf, hn⟩ := purgeWaiting_frame s svc.fullname h.noRen
+    have hle : StLe s ({ (purgeWaiting s svc.fullname) with
+        services := aerase (lower name) s.services,
+        reruns := s.reruns ++ (goodbyes (announcedIntfs s svc) svc).map (fun (i, v4, p) => ReRun.unregisterResend (now + 120) p i v4),
+        timers := s.timers ++ (goodbyes (announcedIntfs s svc) svc).map (fun _ => now + 120) } : State) :=
+      hf.le.trans (StLe.of_eq rfl rfl)
+    refine ⟨Inv.step h hle (fun idx => hn idx) ?_, hf.le.1⟩
     intro e he
     exact Or.inl (mem_aerase he)
 
